@@ -1,13 +1,19 @@
 ---------------------------- MODULE MC_FsIsolation ----------------------------
 (* Behaviour extraction for C29: every history of Depth calls of the code under test     *)
 (* (from the sandbox Tree0, isolation active, code as it is) is emitted once as JSON.    *)
-(* With Prune, calls that change neither the file system nor the bookkeeping are only    *)
-(* kept as the last call of a history (elsewhere they are stuttering steps); with         *)
-(* PruneLast not even there (the shorter history covers the case), except for calls that  *)
-(* the wrapper must refuse on an existing path.                                           *)
+(*                                                                                       *)
+(* Prune      calls that change neither the file system nor the bookkeeping are only     *)
+(*            kept as the last call of a history (elsewhere they are stuttering steps)   *)
+(* PruneLast  not even there (the shorter history covers the case), except for probes:   *)
+(*            destructive calls that the wrapper must refuse on an existing path, and    *)
+(*            calls on an isolated path that pass the wrapper's check and then fail      *)
+(* Repr       non-final calls: one representative call per resulting model state         *)
 EXTENDS FsIsolationOps, Json
 
-CONSTANTS Depth, AllVias, Prune, PruneLast
+CONSTANTS Depth,        \* number of calls per history
+          AllVias,      \* every API variant of every call (else one canonical variant)
+          LastAllVias,  \* every API variant of the last call
+          Prune, PruneLast, Repr
 
 VARIABLES fs, cr, hist
 vars == <<fs, cr, hist>>
@@ -19,20 +25,25 @@ Changes(r) == r.fs # fs \/ r.cr # cr
 RefusedProbe(o, r) == /\ r.res = "PermissionError" /\ Exists(fs, o.p)
                       /\ \/ o.op \in OnePathOps
                          \/ ~o.kw /\ o.q = (IF o.p = "an" THEN "n" ELSE "an")
-
 \* a call on an isolated path that passes the wrapper's check and then fails in the library
 FailsOnCreated(o, r) == /\ r.res \notin {"ok", "PermissionError"} /\ o.p \in cr /\ ~o.kw
                         /\ o.op \in {"Remove", "Rmdir", "Rmtree", "Rename", "Replace", "Move"}
 
-Next == /\ Len(hist) < Depth
-        /\ \E o \in Calls(fs, AllVias) :
-             LET r == Eff(o, fs, cr, AsIs) IN
-             /\ (Prune /\ Len(hist) + 1 < Depth) => Changes(r)
-             /\ (Prune /\ PruneLast /\ Len(hist) + 1 = Depth) =>
-                    (Changes(r) \/ RefusedProbe(o, r) \/ FailsOnCreated(o, r))
-             /\ fs' = r.fs
-             /\ cr' = r.cr
-             /\ hist' = Append(hist, o)
+Last == Len(hist) + 1 = Depth
+Do(o, r) == /\ fs' = r.fs /\ cr' = r.cr /\ hist' = Append(hist, o)
+
+Next ==
+  /\ Len(hist) < Depth
+  /\ LET cs == Calls(fs, AllVias \/ (LastAllVias /\ Last))
+         post(o) == Eff(o, fs, cr, AsIs)
+     IN IF Repr /\ ~Last
+        THEN \E st \in {<<post(o).fs, post(o).cr>> : o \in cs} \ {<<fs, cr>>} :
+               LET o == CHOOSE o \in cs : <<post(o).fs, post(o).cr>> = st IN Do(o, post(o))
+        ELSE \E o \in cs :
+               LET r == post(o) IN
+               /\ (Prune /\ ~Last) => Changes(r)
+               /\ (Prune /\ PruneLast /\ Last) => (Changes(r) \/ RefusedProbe(o, r) \/ FailsOnCreated(o, r))
+               /\ Do(o, r)
 
 Spec == Init /\ [][Next]_vars
 
